@@ -37,6 +37,13 @@ type ClientProtocol interface {
 	ParsePackage(buff []byte) (int, int)
 }
 
+// UnsolicitedDetector may be implemented by a ClientProtocol that can tell a packet the server
+// sent on its own (a push, the reconnect notification) from the answer to a request. Such a
+// packet answers nothing and is not counted against the requests in flight on the connection.
+type UnsolicitedDetector interface {
+	Unsolicited(pkg []byte) bool
+}
+
 func isNoDataError(err error) bool {
 	netErr, ok := err.(net.Error)
 	if ok && netErr.Timeout() && netErr.Temporary() {
